@@ -9,9 +9,10 @@ SPLITS = [[["LA;", "LB;", "LC;"]], [["LA;", "LB;"], ["LC;"]], [["LA;"], ["LB;"],
 
 SLOT = [("other", None)]
 SLOT += [("invoke", t) for t in [("LA;", "m2", "()V"), ("LB;", "m1", "()V"), ("LC;", "m1", "()V"), ("LX;", "ext", "()V"),
-                                 ("[LB;", "clone", "()Ljava/lang/Object;"), ("[I", "clone", "()Ljava/lang/Object;")]]
+                                 ("[LB;", "clone", "()Ljava/lang/Object;"), ("[I", "clone", "()Ljava/lang/Object;"),
+                                 ("[[LC;", "clone", "()Ljava/lang/Object;"), ("[[[B", "clone", "()Ljava/lang/Object;")]]
 SLOT += [("string", s) for s in ("s1", "s2")]
-TYPES = ["LA;", "LB;", "LC;", "LX;", "[LB;", "[I", "I"]
+TYPES = ["LA;", "LB;", "LC;", "LX;", "[LB;", "[I", "I", "[[LB;", "[[[LX;"]
 SLOT += [("new", t) for t in TYPES] + [("constclass", t) for t in TYPES]
 FIELDS = [("LA;", "f", "I"), ("LB;", "f", "I"), ("LC;", "g", "I"), ("LX;", "f", "I")]
 SLOT += [("read", f) for f in FIELDS] + [("write", f) for f in FIELDS]
@@ -124,6 +125,6 @@ def expected_invokes(prog):
 
 PARAMS = [{"chunk": c} for c in range(NCHUNK)]
 NOTE = ("worlds of three classes LA; LB; LC; (two methods, two fields each) in 1..3 DEX files in every add order; LA;->m1 holds "
-        "every pair of instructions from {invoke x 6 targets (internal, other class, other DEX, external, array of class, array of "
-        "primitive), const-string x 2, new-instance/const-class x 7 types, field read/write x 4 fields, other}; single-DEX world "
+        "every pair of instructions from {invoke x 8 targets (internal, other class, other DEX, external, 1- and 2-dimensional array of "
+        "class, arrays of primitive), const-string x 2, new-instance/const-class x 9 types (incl. multi-dimensional arrays), field read/write x 4 fields, other}; single-DEX world "
         "exhaustive (961 programs), split worlds sampled 1/7 in quick, exhaustive in thorough")
